@@ -311,7 +311,9 @@ func (b *windowTimeBuffer) purge(oldest time.Time, inclusive bool) {
 		}
 		b.size = b.stop - b.start
 	} else {
-		if include(b.window[l-1].Time()) {
+		// start == l means the upper segment is empty (the buffer was emptied at the end
+		// of its backing array and has wrapped since): all data is in [0, stop).
+		if b.start < l && include(b.window[l-1].Time()) {
 			for ; b.start < l; b.start++ {
 				if include(b.window[b.start].Time()) {
 					break
